@@ -141,6 +141,22 @@ def kind_name(k):
     return 'table' if is_table_kind(k) else k
 
 
+def feat_kind(k):
+    """coarse column class used in failure features (keeps the number of failure groups small)"""
+    k = kind_name(k)
+    if k in TEXT_KINDS:
+        return 'ragged-text'
+    if k in NUMERIC_LIST_KINDS:
+        return 'ragged-num'
+    if k in GT_KINDS:
+        return 'genotype-matrix'
+    if k in ('int', 'optint'):
+        return 'int'
+    if k in ('float', 'optfloat'):
+        return 'float'
+    return k
+
+
 _SPECS = {}
 
 
@@ -305,6 +321,19 @@ def gt_decode(kind, codes):
                  for i in range(0, len(codes), 2))
 
 
+def _unshared(col):
+    """RaggedArray.ravel() makes a non-contiguous (view-shaped) array contiguous IN PLACE, i.e. reading a column through
+    engine.observe would change the hidden representation the next operation starts from.  A view-shaped ragged array
+    is therefore read through a fresh wrapper of the same buffer and shape (the wrapper is what gets flattened)."""
+    T = _bnp()
+    if isinstance(col, T['RaggedArray']) and not getattr(col, 'is_contigous', True):
+        try:
+            return col._change_view(col._shape)
+        except Exception:
+            return col
+    return col
+
+
 def column_values(kind, col):
     """list of model values, one per row"""
     T = _bnp()
@@ -327,7 +356,7 @@ def column_values(kind, col):
             raise Unobservable('string column with ndim %d' % raw.ndim)
     if isinstance(col, np.ndarray) and col.ndim == 0:
         raise Unobservable('column is a 0-dimensional array')
-    vals = observe.column(col)
+    vals = observe.column(_unshared(col))
     return [tm.norm(v) for v in vals]
 
 
@@ -432,6 +461,10 @@ def col_len(col):
 
 
 # ====================================================================== declared-type clause
+def _same_encoding(a, b):
+    return a is b or a == b
+
+
 def type_ok(kind, col):
     """does the stored column have the declared type (value level: safe numeric widening accepted)?"""
     T = _bnp()
@@ -445,19 +478,19 @@ def type_ok(kind, col):
             return True
         return col.dtype.kind in ('fiub' if kind in ('float', 'optfloat') else 'iub')
     if kind in ('str', 'unionstr'):
-        return isinstance(col, enc) and col.encoding == T['BaseEncoding']
+        return isinstance(col, enc) and _same_encoding(col.encoding, T['BaseEncoding'])
     if kind == 'id':
-        return isinstance(col, T['StringArray']) or (isinstance(col, enc) and col.encoding == T['BaseEncoding'])
+        return isinstance(col, T['StringArray']) or (isinstance(col, enc) and _same_encoding(col.encoding, T['BaseEncoding']))
     if kind == 'strlist':
         return isinstance(col, T['StringArray'])
     if kind in NUMERIC_LIST_KINDS:
         if isinstance(col, enc):
-            return kind != 'intlist' and col.encoding == decl_type(kind)
+            return kind != 'intlist' and _same_encoding(col.encoding, decl_type(kind))
         if isinstance(col, T['RaggedArray']):
             return col.size == 0 or col.dtype.kind in 'iub'
         return isinstance(col, np.ndarray) and col.ndim == 2 and (col.size == 0 or col.dtype.kind in 'iub')
     if kind in GT_KINDS or kind in ('dna', 'strand', 'cigar_op', 'bamseq'):
-        return isinstance(col, enc) and col.encoding == decl_type(kind)
+        return isinstance(col, enc) and _same_encoding(col.encoding, decl_type(kind))
     raise ValueError(kind)
 
 
@@ -515,6 +548,7 @@ RT_OPS = [('rt', 'tuples'), ('rt', 'dict'), ('rt', 'pandas')]
 ADD_OPS = [('add', 'int'), ('add', 'str'), ('add', 'dna')]
 ADD_FIELDS = {'int': ('extra_i', 'int'), 'str': ('extra_s', 'str'), 'dna': ('extra_d', 'dna')}
 CONSTRUCTING = ('replace', 'add', 'rt')
+ARRAY_REPLACE_KINDS = ('str', 'id', 'int', 'intlist')   # kinds whose typed array differs materially from a plain list
 
 
 def op_alphabet(spec):
@@ -527,9 +561,10 @@ def op_alphabet(spec):
             seen.add(kn)
             firsts.append((name, kind))
     ops += [('sort', name) for name, _ in firsts]
-    for name, _ in firsts:
+    for name, kind in firsts:
         ops.append(('replace', name, 'list'))
-        ops.append(('replace', name, 'array'))
+        if kind_name(kind) in ARRAY_REPLACE_KINDS:
+            ops.append(('replace', name, 'array'))
     ops += ADD_OPS + RT_OPS
     if spec['astype']:
         ops.append(('astype', spec['astype']))
@@ -697,13 +732,13 @@ def check_table(t, fields, expected_rows, constructing):
     except Exception as e:
         return ('columns-unequal-length', '?', 'len() of the table and of every column', 'raises %s: %s' % (type(e).__name__, str(e)[:100])), None
     if any(l != n for l in lens):
-        bad = sorted({kind_name(k) for (_, k), l in zip(fields, lens) if l != lens[0]})
+        bad = sorted({feat_kind(k) for (_, k), l in zip(fields, lens) if l != lens[0]})
         return ('columns-unequal-length', '+'.join(bad) or '?', n, lens), None
     if constructing:
         bad = [(name, k) for name, k in fields if (constructing is True or name in constructing) and not type_ok(k, getattr(t, name))]
         if bad:
             name, k = bad[0]
-            return ('construction-stores-undeclared-type', {'declared': kind_name(k), 'given': stored_class(getattr(t, name))},
+            return ('construction-stores-undeclared-type', {'declared': feat_kind(k), 'given': stored_class(getattr(t, name))},
                     {name: kind_name(k) for name, k in bad}, {name: describe(getattr(t, name)) for name, _ in bad}), None
     try:
         rows = obs_rows(t, fields)
@@ -713,7 +748,7 @@ def check_table(t, fields, expected_rows, constructing):
         return ('malformed-column', '?', expected_rows, str(e)), None
     if expected_rows is not None and rows != expected_rows:
         d = tm.differing_columns(expected_rows, rows)
-        kinds = 'row-count' if d is None else '+'.join(sorted({kind_name(fields[j][1]) for j in d}))
+        kinds = 'row-count' if d is None else '+'.join(sorted({feat_kind(fields[j][1]) for j in d}))
         return ('rows-differ', kinds, expected_rows, rows), None
     return None, rows
 
@@ -746,16 +781,16 @@ def transition(t, root, op, model, isolate=True):
     opkind = op[0]
     own_field_kind = None
     if opkind in ('sort', 'replace'):
-        own_field_kind = kind_name(model.kinds[model.fields.index(op[1])])
+        own_field_kind = feat_kind(model.kinds[model.fields.index(op[1])])
     elif opkind == 'add':
-        own_field_kind = ADD_FIELDS[op[1]][1]
+        own_field_kind = feat_kind(ADD_FIELDS[op[1]][1])
     feats = {'op': op_label(op), 'rows0': rows0}
 
     def culprit(default):
         if own_field_kind is not None:
             return own_field_kind
         if not isolate or len(fields_before) == 1:
-            return default if len(fields_before) != 1 else kind_name(fields_before[0][1])
+            return default if len(fields_before) != 1 else feat_kind(fields_before[0][1])
         return isolate_kinds(t, root, op, model) or default
 
     try:
@@ -829,7 +864,7 @@ def isolate_kinds(t, root, op, model):
     bad = []
     try:
         for j, (name, kind) in enumerate(zip(model.fields, model.kinds)):
-            kn = kind_name(kind)
+            kn = feat_kind(kind)
             if kn in bad:
                 continue
             pc = proj_class(kind)
@@ -852,19 +887,20 @@ def isolate_kinds(t, root, op, model):
                     bad.append(kn)
     except Exception:
         return None
-    if len(bad) > 1 and set(bad) == {kind_name(k) for k in model.kinds}:
+    if len(bad) > 1 and set(bad) == {feat_kind(k) for k in model.kinds}:
         return 'every-kind'
     return '+'.join(sorted(set(bad))) if bad else 'only-combined'
 
 
 # ====================================================================== observations of a state
 OBS = ['len', 'scalar-index', 'iterate', 'tolist', 'todict', 'topandas']
+ITER_LIMIT = 4
 
 
 def scalar_indices(n):
     if n == 0:
         return []
-    out = [0, n - 1, -1, n // 2, np.int64(0)]
+    out = [0, -1, np.int64(n // 2)]
     seen = []
     for i in out:
         key = (type(i).__name__, int(i))
@@ -886,7 +922,7 @@ def observe_state(t, model, only=None, isolate=True, counter=None):
         f.update(_exc_features(e))
         kinds = None
         if len(fields) == 1:
-            kinds = kind_name(fields[0][1])
+            kinds = feat_kind(fields[0][1])
         elif isolate:
             kinds = isolate_kinds(t, root, ('obs', name), model)
         f['kinds'] = kinds or '?'
@@ -898,7 +934,7 @@ def observe_state(t, model, only=None, isolate=True, counter=None):
         f = {'op': name, 'rows0': n == 0}
         if cols is None:
             d = tm.differing_columns(exp, obs) if isinstance(obs, list) else None
-            cols = 'shape' if d is None else '+'.join(sorted({kind_name(fields[j][1]) for j in d}))
+            cols = 'shape' if d is None else '+'.join(sorted({feat_kind(fields[j][1]) for j in d}))
         f['kinds'] = cols
         fails.append((name + '-differs', f, exp, obs, None))
 
@@ -918,12 +954,13 @@ def observe_state(t, model, only=None, isolate=True, counter=None):
                     if got != rows[int(i)]:
                         d = [j for j, (a, b) in enumerate(zip(rows[int(i)], got)) if a != b]
                         differs('scalar-index', {'index': int(i), 'row': rows[int(i)]}, got,
-                                '+'.join(sorted({kind_name(fields[j][1]) for j in d})))
+                                '+'.join(sorted({feat_kind(fields[j][1]) for j in d})))
                         break
             elif name == 'iterate':
-                got = [obs_entry(e, fields) for e in t]
-                if got != rows:
-                    differs('iterate', rows, got)
+                # NpDataClass.__iter__ is t[i] for every i; four entries are pulled (all of them for tables up to 4 rows)
+                got = [obs_entry(e, fields) for e in itertools.islice(iter(t), ITER_LIMIT)]
+                if got != rows[:ITER_LIMIT]:
+                    differs('iterate', rows[:ITER_LIMIT], got)
             elif name == 'tolist':
                 got = [obs_py_entry(e, fields) for e in t.tolist()]
                 if got != rows:
@@ -951,7 +988,7 @@ def observe_state(t, model, only=None, isolate=True, counter=None):
                     exp_col = [tm.pick(r, path) for r in rows]
                     got_col = [obs_py_value(kind, v) for v in getcol(key)]
                     if exp_col != got_col:
-                        badk.append(kind_name(kind))
+                        badk.append(feat_kind(kind))
                         exp_d[key], got_d[key] = exp_col, got_col
                 if badk:
                     differs(name, exp_d, got_d, '+'.join(sorted(set(badk))))
@@ -965,7 +1002,7 @@ def observe_state(t, model, only=None, isolate=True, counter=None):
 
 
 # ====================================================================== histories
-def run_history(tname, n, route, hist, res=None, full_obs='new', seen=None):
+def run_history(tname, n, route, hist, res=None, full_obs='new', seen=None, judge_prefix=False):
     """Replay `hist` on a fresh root.  Returns dict(status, fails=[(kind, features, expected, observed, tb)], model, key, calls)."""
     spec = specs()[tname]
     S = specs()
@@ -1002,6 +1039,15 @@ def run_history(tname, n, route, hist, res=None, full_obs='new', seen=None):
         if not enabled(op, model, spec['fields']):
             out['status'] = 'disabled'
             return out
+        if step < len(hist) - 1 and not judge_prefix and op[0] != 'sort':
+            # the prefix was judged when it was explored as a history of its own: replay it without the oracle
+            try:
+                t, _, calls = apply_impl(t, root, op, model)
+            except Exception as e:
+                raise RuntimeError('C19 harness: prefix step %r of %r raised on replay although it passed before: %r' % (op, hist, e))
+            apply_model(op, model, root[1])
+            out['calls'] += calls
+            continue
         r = transition(t, root, op, model)
         out['calls'] += r['calls']
         if r['status'] != 'ok':
@@ -1031,13 +1077,15 @@ def build_culprits(spec, rows, route):
             try:
                 build_root(sub, [(r[j],) for r in rows], route)
             except Exception:
-                bad.append(kind_name(kind))
+                bad.append(feat_kind(kind))
     except Exception:
         return '?'
+    if len(set(bad)) > 1 and set(bad) == {feat_kind(k) for _, k in spec['fields']}:
+        return 'every-kind'
     return '+'.join(sorted(set(bad))) if bad else 'only-combined'
 
 
-def explore(res, tname, n, route, depth, deadline):
+def explore(res, tname, n, route, depth, deadline, split=(0, 1)):
     spec = specs()[tname]
     ops = op_alphabet(spec)
     seen = set()
@@ -1052,6 +1100,12 @@ def explore(res, tname, n, route, depth, deadline):
                 return
             r = run_history(tname, n, route, hist, seen=seen)
             if r['status'] == 'disabled':
+                continue
+            if not hist and split[0] != 0:
+                # the root itself is counted and judged by part 0 of a split exploration; this part only expands it
+                if r['status'] == 'ok':
+                    seen.add(r['key'])
+                    nxt.extend((op,) for oi, op in enumerate(ops) if oi % split[1] == split[0])
                 continue
             res.evaluations += 1
             res.planned += 1
@@ -1088,8 +1142,9 @@ def explore(res, tname, n, route, depth, deadline):
             res.outcome('ok:new:%s:%d-rows%s' % (last, min(len(r['model'].rows), 9), ':obs-fail' if r['fails'] else ''))
             example = hist
             if d < depth:
-                for op in ops:
-                    nxt.append(hist + (op,))
+                for oi, op in enumerate(ops):
+                    if hist or oi % split[1] == split[0]:
+                        nxt.append(hist + (op,))
         frontier = nxt
     res.sample({'type': tname, 'fields': [[f, kind_name(k)] for f, k in spec['fields']], 'rows': n, 'route': route, 'depth': depth,
                 'root_rows': [list(map(repr, r)) for r in tm.rows_for(spec, n, specs())][:2],
@@ -1135,7 +1190,7 @@ def construct_case(declared, given, route):
     kind = ('table', 'Inner') if declared == 'table' else declared
     cls = T['make_dataclass']([('k', decl_type(kind)), ('anchor', int)], 'Construct')
     val = given_value(given)
-    feats = {'op': 'construct', 'declared': declared, 'given': GIVEN_CLASS[given]}
+    feats = {'op': 'construct', 'declared': feat_kind(declared), 'given': GIVEN_CLASS[given]}
     try:
         if route == 'ctor':
             t = cls(val, [10, 20])
@@ -1190,66 +1245,88 @@ def run_construct(res, deadline):
 
 # ====================================================================== tiers, shards
 ROUTES = ['ctor', 'tuples', 'dict']
-CORE_DEEP = ['DynAll', 'Bed6']
-
-
-def _all_type_names():
-    return type_names()
+# multi-column types explored one level deeper (kind-rich or structurally distinct; the other datatypes repeat their column kinds)
+DEEP_TYPES = ['DynAll', 'DynNested', 'DynMade', 'DynOptFloat', 'DynExtended', 'Bed6', 'Bed12', 'SequenceEntryWithQuality', 'BamEntry',
+              'VCFEntry', 'VCFEntryWithGenotypes', 'VCFGenotypeEntry', 'GfaPath', 'Interval', 'SequenceEntry']
+QUICK_DEEP_CORE = ['DynMade']
+QUICK_DEEP_ROTATION = ['SequenceEntry', 'Interval', 'DynOptFloat', 'GfaPath', 'DynNested', 'SequenceEntryWithQuality']
+SPLIT = 4
 
 
 def bounds(tier, seed):
-    names = _all_type_names()
-    rot = [n for n in names if n not in CORE_DEEP and not n.startswith('K_')]
+    names = type_names()
+    singles = [n for n in names if n.startswith('K_')]
     if tier == 'quick':
-        ext = [rot[(seed * 3 + i) % len(rot)] for i in range(3)]
-        return {'types': names, 'max_root_rows': 3, 'deep_root': 'constructor, 3 rows', 'depth_deep': 3, 'depth_default': 2,
-                'depth3_types': CORE_DEEP + ext, 'core': 'every type: depth 2 from the 3-row constructor root; depth 1 from every '
-                'root of 0,1,2 rows x {ctor, tuples, dict} and empty(); depth 3 for ' + ', '.join(CORE_DEEP),
-                'extension_slice': 'depth 3 for three further types rotated by seed: ' + ', '.join(ext),
+        ext = QUICK_DEEP_ROTATION[seed % len(QUICK_DEEP_ROTATION)]
+        return {'types': names, 'root_rows': [0, 1, 2, 3], 'routes': ROUTES + ['empty'],
+                'core': 'every type: depth 2 from the 3-row constructor root, depth 1 from every other root (0,1,2,3 rows x '
+                        'constructor/from_entry_tuples/from_dict, empty()); depth 3 for the one-column tables of every basic kind (%s) '
+                        'and for %s' % (', '.join(singles), ', '.join(QUICK_DEEP_CORE)),
+                'depth3_types': singles + QUICK_DEEP_CORE + [ext],
+                'extension_slice': 'depth 3 for one further type rotated by seed: ' + ext,
                 'construction': '%d declared kinds x %d given arguments x 2 routes' % (len(DECLARED), len(GIVEN))}
-    return {'types': names, 'max_root_rows': 4, 'deep_root': 'constructor, 3 rows (4 rows at depth 2)', 'depth_deep': 4,
-            'depth_default': 3, 'depth4_types': CORE_DEEP, 'small_roots_depth': 2,
+    return {'types': names, 'root_rows': [0, 1, 2, 3, 4], 'routes': ROUTES + ['empty'],
+            'depth4_types': singles, 'depth3_types': DEEP_TYPES, 'depth2_types': [n for n in names if n not in DEEP_TYPES and n not in singles],
+            'other_roots': 'depth 1 from every root of 0,1,2,3,4 rows x 3 routes and empty(); depth 2 from empty(), 1-row and 4-row constructor roots',
             'construction': '%d declared kinds x %d given arguments x 2 routes' % (len(DECLARED), len(GIVEN))}
 
 
-def _cost(tname, depth):
-    return (len(specs()[tname]['fields']) + 2) * (40 ** depth)
+def _cost(tname, depth, split=1):
+    spec = specs()[tname]
+    return (len(spec['fields']) + 2) * (len(op_alphabet(spec)) ** depth) / split
+
+
+MAX_SHARDS = 56
 
 
 def shards(tier, seed):
+    """items = (type, roots, split part); items are packed greedily (largest first) into at most MAX_SHARDS shards of similar
+    estimated cost; a shard descriptor lists its items"""
     b = bounds(tier, seed)
-    out = [{'part': 'construct'}]
+    items = []
     for tname in b['types']:
-        single = tname.startswith('K_')
         if tier == 'quick':
-            deep = 3 if tname in b['depth3_types'] or single else 2
-            out.append({'part': 'deep', 'type': tname, 'roots': [[3, 'ctor', deep]]})
+            deep = 3 if tname in b['depth3_types'] else 2
+            split = SPLIT if (deep == 3 and not tname.startswith('K_')) else 1
             small = [[0, 'empty', 1]] + [[n, r, 1] for n in (0, 1, 2) for r in ROUTES] + [[3, r, 1] for r in ROUTES[1:]]
-            out.append({'part': 'small', 'type': tname, 'roots': small})
         else:
-            deep = 4 if tname in b['depth4_types'] or single else 3
-            out.append({'part': 'deep', 'type': tname, 'roots': [[3, 'ctor', deep]]})
-            small = [[0, 'empty', 2]] + [[n, r, 2] for n in (0, 1, 2, 4) for r in ROUTES] + [[3, r, 2] for r in ROUTES[1:]]
-            out.append({'part': 'small', 'type': tname, 'roots': small})
-
-    def cost(d):
-        if d['part'] == 'construct':
-            return 10 ** 9
-        return sum(_cost(d['type'], r[2]) for r in d['roots'])
-    out.sort(key=lambda d: -cost(d))
-    return out
+            deep = 4 if tname in b['depth4_types'] else 3 if tname in b['depth3_types'] else 2
+            split = SPLIT if deep >= 3 else 1
+            small = [[0, 'empty', 2], [1, 'ctor', 2], [4, 'ctor', 2]] + [[n, r, 1] for n in (0, 2) for r in ROUTES] + \
+                    [[n, r, 1] for n in (1, 4) for r in ROUTES[1:]] + [[3, r, 1] for r in ROUTES[1:]]
+        for i in range(split):
+            items.append((_cost(tname, deep, split), {'type': tname, 'roots': [[3, 'ctor', deep]], 'split': [i, split]}))
+        items.append((sum(_cost(tname, r[2]) for r in small), {'type': tname, 'roots': small, 'split': [0, 1]}))
+    items.sort(key=lambda x: (-x[0], x[1]['type'], x[1]['split']))
+    total = sum(c for c, _ in items)
+    cap = max(items[0][0], total / (MAX_SHARDS - 1))
+    bins = []
+    for c, it in items:
+        for bn in bins:
+            if bn[0] + c <= cap:
+                bn[0] += c
+                bn[1].append(it)
+                break
+        else:
+            bins.append([c, [it]])
+    bins.sort(key=lambda bn: -bn[0])
+    return [{'part': 'construct'}] + [{'part': 'explore', 'items': bn[1]} for bn in bins]
 
 
 def run_shard(desc, deadline):
+    import time
     from . import common  # noqa: F401  (silences bionumpy's logging)
     res = Result()
+    c0 = time.process_time()
     if desc['part'] == 'construct':
         run_construct(res, deadline)
-        return res
-    for n, route, depth in desc['roots']:
-        if res.capped:
-            break
-        explore(res, desc['type'], n, route, depth, deadline)
+    else:
+        for item in desc['items']:
+            for n, route, depth in item['roots']:
+                if res.capped:
+                    break
+                explore(res, item['type'], n, route, depth, deadline, tuple(item.get('split', (0, 1))))
+    res.extra['cpu_ms (measurement only)'] += int((time.process_time() - c0) * 1000)
     return res
 
 
@@ -1263,7 +1340,7 @@ def replay_case(case):
         if fail is not None:
             out.append({'kind': fail[0], 'features': fail[1], 'expected': fail[2], 'observed': fail[3], 'traceback': fail[4]})
         return out
-    r = run_history(case['type'], case['n'], case['route'], [tuple(o) for o in case['hist']], full_obs='always')
+    r = run_history(case['type'], case['n'], case['route'], [tuple(o) for o in case['hist']], full_obs='always', judge_prefix=True)
     for (kind, feats, exp, obs, tb) in r['fails']:
         out.append({'kind': kind, 'features': feats, 'expected': _jsonable(exp), 'observed': _jsonable(obs), 'traceback': tb})
     return out
